@@ -56,7 +56,9 @@ def canon_name(p):
     """temp names are random: `._<uuid>_X` (the dependency's scheme) and `X.<random hex>.tmp` / `X.<random hex>~`
     (other schemes a maintainer might choose) are all written `._TMP_X`"""
     p = _TMP_RE.sub("._TMP_", p)
-    return _TMP_RE2.sub(lambda m: m.group(1) + "._TMP_" + m.group(2), p)
+    # (a temp name may also hide itself with a leading dot: `.X.<random hex>.tmp`)
+    return _TMP_RE2.sub(lambda m: m.group(1) + "._TMP_" + (m.group(2)[1:] if m.group(2).startswith(".") and len(m.group(2)) > 1
+                                                            else m.group(2)), p)
 
 
 class Plan:
